@@ -700,6 +700,45 @@ pub fn gen_c18_lockstep(seed: u64) -> Plan {
     Plan { prop: "C18".into(), family: "L-collide".into(), seed, cfg, sim, clients: vec![ops], chaos: vec![], finale: Finale::None, universe, tags: vec!["lockstep".into(), "under_capacity".into(), "collide".into()] }
 }
 
+/// Fault enumeration for C10/C11/C12: a small plan with exactly one chaos clear()/close() whose
+/// scheduling offset is enumerated (0..64) by the run index instead of sampled.
+pub fn gen_enum_chaos(prop: &str, seed: u64, variant: u64) -> Plan {
+    let mut pf = profile_for(prop);
+    pf.clients = (1, 2);
+    pf.ops = (2, 8);
+    pf.keys = (1, 3);
+    pf.chaos_clear_pct = 0;
+    pf.chaos_close_pct = 0;
+    pf.chaos_umc_pct = 0;
+    pf.faulty_pct = 15;
+    pf.sleeps = false;
+    let mut p = gen_p_family(prop, seed, &pf);
+    let offset = (variant / 4) % 64;
+    let op = match prop {
+        "C11" => Op::Clear,
+        "C12" => Op::Close,
+        _ => {
+            if (variant / 256) % 2 == 0 {
+                Op::Close
+            } else {
+                Op::Clear
+            }
+        }
+    };
+    if matches!(op, Op::Clear) {
+        p.tags.push("clear".into());
+    } else {
+        p.tags.push("close".into());
+    }
+    p.chaos = vec![Chaos { at_step: offset, op }];
+    if prop == "C10" && !p.clients.iter().any(|c| c.iter().any(|o| matches!(o, Op::Wait))) {
+        p.clients[0].push(Op::Wait);
+    }
+    p.family = "P-enum-offset".into();
+    p.tags.push(format!("chaos_offset_{}", offset));
+    p
+}
+
 pub fn gen_plan(prop: &str, seed: u64, variant: u64) -> Plan {
     match prop {
         "C03" if variant % 4 == 2 => gen_p_family(prop, seed, &PProfile { ttl_pct: 70, lookup_pct: 45, over_capacity_pct: 30, remove_pct: 8, ..PProfile::default() }),
@@ -708,6 +747,7 @@ pub fn gen_plan(prop: &str, seed: u64, variant: u64) -> Plan {
         "C09" => gen_ttl_family_c(prop, seed, variant % 5 == 4, true),
         "C19" => gen_diff(seed, variant),
         "C16" => gen_p_family(prop, seed, &PProfile { clients: (1, 2), coster_pct: 60, over_capacity_pct: 50, barrier_every: (1, 3), collide_pct: 0, faulty_pct: 20, ttl_pct: 15, if_present_pct: 15, ops: (6, 30), ..PProfile::default() }),
+        "C10" | "C11" | "C12" if variant % 4 == 0 => gen_enum_chaos(prop, seed, variant),
         "C18" if variant % 3 == 0 => gen_c18_lockstep(seed),
         "C18" if variant % 3 == 1 => gen_c18_typed(seed),
         "C01" | "C02" | "C06" | "C07" | "C08" | "C10" | "C11" | "C12" | "C13" | "C15" | "C17" | "C18" | "C20" => gen_p_family(prop, seed, &profile_for(prop)),
@@ -733,7 +773,7 @@ pub fn nontrivial_rule(prop: &str) -> &'static str {
         "C17" => "P family with metrics on, inline clear at barriers; non-trivial = the conservation equations were evaluated at a quiescent checkpoint; distinct = distinct event-log hash",
         "C18" => "thirds: lock-step scripts over keys forced to share an index (collision key builder), the exact-map family on every integer key type and on String/&str with the library's own key builders, P family with collisions; non-trivial = an operation hit an index held by a colliding key, or a typed-key script ran; distinct = distinct event-log hash",
         "C19" => "the same lock-step plan (barrier after every operation) executed on Cache and on AsyncCache in one child; non-trivial = more than two operations were compared result by result; distinct = distinct event-log hash of the pair",
-        "C20" => "swarm over builder parameters (num_counters 0-70 and large, max_cost negative/0/1/small, buffer_size 0-8, buffer_items 0-64, cleanup 1 ms-5 s) followed by a P workload and a final insert+wait+get+remove probe; every run counts as non-trivial (the configuration is the case); distinct = distinct event-log hash",
+        "C20" => "swarm over builder parameters (num_counters 0-70 and large, max_cost negative/0/1/small, buffer_size 0-8, buffer_items 0-64, cleanup 1 ms-5 s) followed by a P workload and a final insert+wait+get+remove probe; non-trivial = the accepted configuration has at least one small or unusual parameter (num_counters < 64, max_cost < 100, buffer_size <= 8, buffer_items <= 1, cleanup <= 10 ms) or a zero parameter was rejected; distinct = distinct event-log hash",
         _ => "seeded swarm; distinct = distinct event-log hash among runs that exercised the property's mechanism",
     }
 }
